@@ -58,12 +58,21 @@ def canary_job():
 def harness(g, chart, level, canary=False):
     from sismic.exceptions import NonDeterminismError, ConflictingTransitionsError
     m = len(chart['tr'])
-    if level.get('gks') == 'alt':       # two alternating patterns instead of all 2^M
-        flip = g.choice('gkflip', 2)
-        gk = [('after', 'idle')[(t + flip) % 2] for t in range(m)]
+    same_text = False
+    if level.get('gks') == 'alt':       # two alternating patterns and two with textually identical guards
+        flip = g.choice('gkflip', 4)
+        if flip >= 2:
+            same_text = True
+            gk = [('after', 'idle')[flip - 2]] * m
+        else:
+            gk = [('after', 'idle')[(t + flip) % 2] for t in range(m)]
     else:
         gk = [('after', 'idle')[g.choice('gk%d' % t, 2)] for t in range(m)]
-    D = [g.real('D%d' % t, 0) for t in range(m)]
+    if same_text:       # one shared threshold: every guard is the same string although the sources differ
+        DX = g.real('DX', 0)
+        D = [DX] * m
+    else:
+        D = [g.real('D%d' % t, 0) for t in range(m)]
     DC = g.real('DC', 0)
     times_seen = []
     inv_seen = []
@@ -71,7 +80,7 @@ def harness(g, chart, level, canary=False):
 
     def hook(kind, ident):
         if kind == 'guard':
-            return '%s(D[%d])' % (gk[ident], ident)
+            return '%s(D[0])' % gk[ident] if same_text else '%s(D[%d])' % (gk[ident], ident)
         if kind == 'action':
             return 'A(%d)\nTM(time)\nMOVE(%d)\nTM(time)' % (ident, ident)
         if kind == 'entry':
@@ -79,7 +88,7 @@ def harness(g, chart, level, canary=False):
         if kind == 'exit':
             return "P('ex', %d)\nTM(time)" % ident
         return None
-    key = ('c13', tuple(gk))
+    key = ('c13', tuple(gk), same_text)
     inst = Inst(g, chart, 'id', code_hook=hook, cache_key=key, extra_context={'D': D, 'DC': DC})
     cm, it = inst.cm, inst.it
     if ('inv', key) not in g.cache:       # contracts are added once per cached chart
@@ -105,7 +114,15 @@ def harness(g, chart, level, canary=False):
     ctx = it.context
     ctx['TM'], ctx['MOVE'], ctx['CI'] = TM, MOVE, CI
     started = []
-    it.attach(lambda e: started.append(e.time) if e.name == 'step started' else None)
+
+    def on_meta(e):
+        if e.name == 'step started':
+            started.append(e.time)
+            # the clock moves right after the step time was sampled (a self-advancing clock / a busy listener)
+            ls = g.real('ls%d' % cur['k'], 0)
+            it.clock.time = it.clock.time + ls
+            g.witness('clock_moved_during_step', ls > 0)
+    it.attach(on_meta)
     entry_ref, idle_ref = {}, {}
     pending = []
     hist = []
@@ -133,8 +150,8 @@ def harness(g, chart, level, canary=False):
             g.witness('invariant_time_predicates')
         g.prove_all(conds)
 
+    now = it.clock.time          # sampled before the step: the listener moves the clock during the step
     st = inst.init()
-    now = it.clock.time
     after_step(st, now)
     for k in range(level['K']):
         cur['k'] = k
